@@ -82,14 +82,14 @@ static inline void exc_maybe(void) { if (!g_exc && nondet_bool()) g_exc = 1; }
 #undef CONTRACT_Q_doEnqueue
 #define CONTRACT_Q_doEnqueue \
   __CPROVER_requires(Q_FRESH(self) && __CPROVER_is_fresh(item, sizeof(QueuedEvent))) \
-  __CPROVER_requires(NOLOCKS(self) && q_ok(self) && Q_SMALL(self) && item->event == (item->arguments.a0.id ^ 0x2a) && !g_exc) \
+  __CPROVER_requires(NOLOCKS(self) && q_ok(self) && Q_SMALL(self) && EVT_TIE(item->event, item->arguments.a0.id) && !g_exc) \
   __CPROVER_assigns(self->queueList, self->freeList, self->queueListMutex.depth, self->freeListMutex.depth, item->arguments.a0.id, GHOSTS, g_exc) \
   __CPROVER_ensures(NOLOCKS(self) && q_ok(self)) \
   __CPROVER_ensures(g_exc ==> (EXC_QSAME(self) && EXC_SLOT_SAME(0) && EXC_SLOT_SAME(1)))                  /* the queued events are exactly as before */ \
   __CPROVER_ensures(!g_exc ==> (self->queueList.len == __CPROVER_old(self->queueList.len) + 1 && ENQ_OLD_KEEP(0) && ENQ_OLD_KEEP(1) && ENQ_NEW_HOLDS(0) && ENQ_NEW_HOLDS(1)))
 #undef ENQ_CONTRACT
 #define ENQ_CONTRACT(LV) \
-  __CPROVER_requires(Q_FRESH(self) && __CPROVER_is_fresh(args, sizeof(VArg)) && !g_dirty && !g_exc) \
+  __CPROVER_requires(Q_FRESH(self) && ENQ_ARGS_FRESH && !g_dirty && !g_exc) \
   __CPROVER_requires(NOLOCKS(self) && q_ok(self) && Q_SMALL(self)) \
   __CPROVER_assigns(self->queueList, self->freeList, self->queueListMutex.depth, self->freeListMutex.depth, self->queueListConditionVariable.notified, GHOSTS, g_exc) \
   __CPROVER_assigns(!(LV): args->id) \
